@@ -202,3 +202,66 @@ func init() {
 		return mkSym(i.ts.Ite(c, i.ts.BV(1, 64), i.ts.BV(0, 64)), types.Int)
 	}
 }
+
+// sync.Map: a map guarded by its own synchronisation (no race-monitor events);
+// keys are compared as interface values.
+func (i *interpreter) syncMapOf(p *value) *omap {
+	tab, _ := i.side["syncmap"].(map[*value]*omap)
+	if tab == nil {
+		tab = map[*value]*omap{}
+		i.side["syncmap"] = tab
+	}
+	m := tab[p]
+	if m == nil {
+		m = makeMap(types.NewInterfaceType(nil, nil))
+		tab[p] = m
+	}
+	return m
+}
+
+func init() {
+	externals["(*sync.Map).Load"] = func(fr *frame, a []value) value {
+		if e := fr.i.syncMapOf(a[0].(*value)).find(fr, a[1]); e != nil {
+			return tuple{e.val, true}
+		}
+		return tuple{iface{}, false}
+	}
+	externals["(*sync.Map).Store"] = func(fr *frame, a []value) value {
+		fr.i.syncMapOf(a[0].(*value)).insert(fr, a[1], a[2])
+		return nil
+	}
+	externals["(*sync.Map).LoadOrStore"] = func(fr *frame, a []value) value {
+		m := fr.i.syncMapOf(a[0].(*value))
+		if e := m.find(fr, a[1]); e != nil {
+			return tuple{e.val, true}
+		}
+		m.insert(fr, a[1], a[2])
+		return tuple{a[2], false}
+	}
+	externals["(*sync.Map).LoadAndDelete"] = func(fr *frame, a []value) value {
+		m := fr.i.syncMapOf(a[0].(*value))
+		if e := m.find(fr, a[1]); e != nil {
+			v := e.val
+			m.remove(fr, a[1])
+			return tuple{v, true}
+		}
+		return tuple{iface{}, false}
+	}
+	externals["(*sync.Map).Delete"] = func(fr *frame, a []value) value {
+		fr.i.syncMapOf(a[0].(*value)).remove(fr, a[1])
+		return nil
+	}
+	externals["(*sync.Map).Range"] = func(fr *frame, a []value) value {
+		m := fr.i.syncMapOf(a[0].(*value))
+		for _, e := range append([]*mentry(nil), m.entries...) {
+			if e.deleted {
+				continue
+			}
+			r := call(fr.i, fr, fr.callpos, a[1], []value{e.key, e.val})
+			if b, ok := r.(bool); ok && !b {
+				break
+			}
+		}
+		return nil
+	}
+}
